@@ -92,6 +92,17 @@ pub fn field_list(_t: Tier) -> Vec<TsCase> {
             both(format!("2015-08-30T12:36:00,{}+02:30", f), &mut out);
         }
     }
+    // "24:00:00" and its neighbours: hour 24 is out of range whatever the minutes and seconds are (several fields at
+    // their special values at once -- the one-field sweeps above keep the others ordinary)
+    for (h, m, sec) in [(24u32, 0u32, 0u32), (24, 0, 1), (24, 1, 0), (24, 59, 59), (23, 60, 0), (23, 59, 60), (23, 60, 60), (24, 60, 60), (0, 0, 0), (0, 0, 60), (12, 60, 0), (25, 0, 0), (99, 99, 99)] {
+        for (d8, dx) in [("20150830", "2015-08-30"), ("20151231", "2015-12-31"), ("00010130", "0001-01-30"), ("99991231", "9999-12-31")] {
+            for zone in ["Z", "+0000", "-1400", "+0530"] {
+                both(format!("{}T{:02}{:02}{:02}{}", d8, h, m, sec, zone), &mut out);
+                both(format!("{}T{:02}:{:02}:{:02}{}", dx, h, m, sec, if zone == "Z" { "Z".to_string() } else { format!("{}:{}", &zone[..3], &zone[3..]) }), &mut out);
+                both(format!("{}T{:02}{:02}{:02}.000{}", d8, h, m, sec, zone), &mut out);
+            }
+        }
+    }
     for y in ["0001", "0999", "1000", "9999", "0000", "0004"] {
         both(format!("{}0229T000000Z", y), &mut out);
         both(format!("{}-01-01T00:00:00+00:01", y), &mut out);
